@@ -13,7 +13,7 @@ import (
 func init() {
 	commands["API"] = func(o Opts) error { return runApiStream(o, "API", "spec_true", apiMix{}) }
 	commands["C01"] = func(o Opts) error { return runApiStream(o, "C01", "spec_ok01", apiMix{histories: true}) }
-	commands["C06"] = func(o Opts) error { return runApiStream(o, "C06", "spec_ok06", apiMix{configs: true}) }
+	commands["C06"] = func(o Opts) error { return runApiStream(o, "C06", "spec_ok06", apiMix{configs: true, histories: true}) }
 	commands["C07"] = func(o Opts) error { return runApiStream(o, "C07", "spec_ok07", apiMix{edges: true}) }
 }
 
@@ -97,6 +97,9 @@ func runApiStream(o Opts, prop, oracle string, mix apiMix) error {
 			n := 6 + r.Intn(10)
 			for k := 0; k < n; k++ {
 				w := r.Intn(nOps)
+				if k == 1 {
+					w = 1 // SetAddress early in every history: the configuration, not the controller's new address, keeps routing
+				}
 				id := ids[r.Intn(2)]
 				if k%2 == 0 {
 					one(a, cfgA, w, id, false, "history/client-a")
